@@ -136,6 +136,48 @@ func c18(c *Ctx) {
 		}
 	}
 
+	// ---- stateless codec ----
+	{
+		allowed := map[string]string{
+			"encoding/binary.BigEndian": "byte order value (immutable)",
+			"io.EOF":                    "sentinel error",
+			"io.ErrUnexpectedEOF":       "sentinel error",
+		}
+		codec := append([]string{}, decoders...)
+		for _, f := range frames {
+			codec = append(codec, "litefs.(*"+f.t+").WriteTo")
+		}
+		codec = append(codec, "litefs.WriteStreamFrame", "http.WritePosMapTo", "chunk.(*Writer).Write", "chunk.(*Writer).Close", "internal.ReadN", "internal.ReadFullAt")
+		var bad []string
+		n := 0
+		for _, name := range codec {
+			fn := c.F(name)
+			if fn == nil {
+				bad = append(bad, name+" unresolved")
+				continue
+			}
+			n++
+			for _, in := range InstrsDeep(fn, func(ssa.Instruction) bool { return true }) {
+				for _, op := range in.Operands(nil) {
+					if g, ok := (*op).(*ssa.Global); ok {
+						gn := g.Pkg.Pkg.Path() + "." + g.Name()
+						if _, ok := allowed[gn]; !ok {
+							bad = append(bad, name+" uses package-level variable "+gn+" at "+c.where(in))
+						}
+					}
+				}
+			}
+		}
+		d := "the frame, position-map and chunk codecs keep no state between calls: they touch no package-level variable besides the byte order and the io sentinel errors"
+		if len(bad) > 0 {
+			c.fail("stateless/no-shared-state", "K5 who-may-access", d, "state shared between calls (a pooled buffer, a cached frame) can carry bytes from one stream into another: the peer then reads a frame that was never written to it", strings.Join(bad, "; "), n)
+		} else if n < 20 {
+			c.fail("stateless/no-shared-state", "K5 who-may-access", d, "", fmt.Sprintf("only %d codec functions resolved", n), n)
+		} else {
+			c.ok("stateless/no-shared-state", "K5 who-may-access", d, n)
+		}
+	}
+
 	// ---- fullreads ----
 	{
 		var bad []string
